@@ -247,4 +247,5 @@ SUBS = [
     Sub("truncation_via_reader_validate0", o_reader, plan=plan_reader, rule="at least one cut frame in the stream", sample=_short),
     Sub("all_truncations_python_O", o_optimized, strategy=s_optimized, examples=(2, 20), rule="every case (12 messages x all cuts in a python -O child)", sample=_short),
     Sub("accept_iff_fits", o_diff, strategy=s_diff, examples=(400, 10000), rule="payload under a defined number", need={"fits": 1, "overruns": 1}, sample=_short),
+    __import__("pv.fuzz.campaign", fromlist=["make"]).make("C06", ("C06",), runs=(15000, 400000), shards=(4, 16)),
 ]
